@@ -71,6 +71,11 @@ Proof.
   destruct l as [|x l]; [destruct a; reflexivity|]. cbn [skipn Nat.add]. apply IH.
 Qed.
 
+Lemma firstn_app_len {A} (a x : list A) n : length a = n -> firstn n (a ++ x) = a.
+Proof. intros <-. rewrite firstn_app, Nat.sub_diag, firstn_all. cbn [firstn]. apply app_nil_r. Qed.
+Lemma skipn_app_len {A} (a x : list A) n : length a = n -> skipn n (a ++ x) = x.
+Proof. intros <-. rewrite skipn_app, Nat.sub_diag, skipn_all. reflexivity. Qed.
+
 (* iteration *)
 Section IterFacts.
   Context {A : Type} (f : A -> res A).
